@@ -170,6 +170,7 @@ class Ctx(object):
         self.point = None
         self.point_override = None
         self.extra = collections.Counter()
+        self.samples = []       # a few explored histories / cases written out for the evidence file
 
     # -- real calls
     def call(self, f, *a, **k):
@@ -284,7 +285,7 @@ def _work(args):
         if len(byc.setdefault(f['class_key'], [])) < MAXFAIL_PER_CLASS:
             byc[f['class_key']].append(f)
     return (si, n, ctx.calls, ctx.cmps, ctx.obs, ctx.states, ctx.shapes,
-            [f for fs in byc.values() for f in fs], dict(cnt), dict(ctx.extra))
+            [f for fs in byc.values() for f in fs], dict(cnt), dict(ctx.extra), jsonable(ctx.samples[:2] + ctx.samples[-1:]))
 
 
 _PROP = None
@@ -327,13 +328,15 @@ def run_property(prop, subs, tier, workers=None, only=None):
         for t in tasks:
             results.append(_work(t))
     results.sort(key=lambda r: (r[0], repr(r[7][:1])))
-    for (si, n, calls, cmps, obs, states, shapes, fl, cnt, extra) in results:
+    for (si, n, calls, cmps, obs, states, shapes, fl, cnt, extra, smp) in results:
         p = per[si]
         p['calls'] += calls
         p['comparisons'] += cmps
         agg[si]['obs'] |= obs
         agg[si]['states'] |= states
         agg[si]['shapes'] |= shapes
+        if smp and len(p.setdefault('sample_histories', [])) < 4:
+            p['sample_histories'] += smp[:1] + smp[-1:]
         for k, v in extra.items():
             p.setdefault('extra', {})
             p['extra'][k] = p['extra'].get(k, 0) + v
@@ -410,6 +413,8 @@ def bfs(ctx, key, sysm, depth):
                 except Exception as e:
                     r = ('exc', type(e).__name__)
                 trans += 1
+                if len(ctx.samples) < 2 or d == depth - 1 or True:
+                    ctx.samples = (ctx.samples[:2] + [{'system': key, 'history': list(hist + (ev,)), 'result': short(r, 80)}])[:3] if len(ctx.samples) >= 2 else ctx.samples + [{'system': key, 'history': list(hist + (ev,)), 'result': short(r, 80)}]
                 ctx.point_override = ('hist', key, hist + (ev,))
                 sysm.judge(ctx, hist, ev, r, o)
                 ctx.point_override = None
